@@ -359,7 +359,7 @@ def composite_cases(rep: Report, rng: random.Random, n: int) -> None:
              ("DepthSequential(*modules)", M.DepthSequential, lambda ks: M.DepthSequential(*ks)),
              ("DepthSequential(OrderedDict)", M.DepthSequential, lambda ks: M.DepthSequential(OrderedDict((f"layer{i}", k_) for i, k_ in enumerate(ks))))]
     for label, cls, make in forms:
-        for k in (1, 2, 3, rng.randint(4, 6)):
+        for k in (1, 2, 3, rng.randint(4, 6), 11, 12):      # 11, 12: past the decimal-digit boundary of the child names "9" / "10"
             kids = [kid() for _ in range(k)]
             rep.case(("container", label, k))
             try:
@@ -370,6 +370,9 @@ def composite_cases(rep: Report, rng: random.Random, n: int) -> None:
             if len(c) != k or any(p.mup_scaling_depth != k for p in c.parameters()):
                 rep.violation(f"{label} of {k} layers does not record depth {k} on every parameter (recorded: {sorted({p.mup_scaling_depth for p in c.parameters()}, key=str)})",
                               {"module": cls.__name__, "form": label, "k": k}, key=f"container_depth:{label}")
+            if len(c) == k and any(a is not b for a, b in zip(list(c), kids)):
+                rep.violation(f"{label} of {k} layers holds them in another order than given (positions {[kids.index(a) if a in kids else -1 for a in c]})",
+                              {"module": cls.__name__, "form": label, "k": k}, key=f"container_order:{label}")
             if cls is M.DepthSequential:
                 x = torch.randn(2, 3)
                 y, h = c(x), x
